@@ -145,19 +145,9 @@ Record pkg := { p_files : list file; p_dest : list tspec }.
 Definition is_struct (t : tspec) : bool := match ts_rhs t with RStruct => true | _ => false end.
 Definition is_rest_iface (t : tspec) : bool := match ts_rhs t with RIface true => true | _ => false end.
 
-(* the TypeSpec nodes ast.Inspect reaches in a file, in source order: the specs
-   of package-level type declarations and, since the walkers return true on every
-   node that is not a match, the local type declarations inside function bodies *)
-Definition walk_decl (d : decl) : list tspec :=
-  match d with
-  | DType l => l
-  | DFunc l => l
-  | _ => []
-  end.
-Definition walk_file (f : file) : list tspec := flat_map walk_decl (f_decls f).
-Definition walk_pkg (p : pkg) : list tspec := flat_map walk_file (p_files p).
-
-(* package-level type declarations only (the declarative view) *)
+(* the TypeSpec nodes the walkers reach in a file, in source order: since the
+   repair of K_local_type_listed (shoot.InspectTopLevel) only the specs of
+   package-level type declarations; function bodies are not entered *)
 Definition top_decl (d : decl) : list tspec := match d with DType l => l | _ => [] end.
 Definition top_specs (f : file) : list tspec := flat_map top_decl (f_decls f).
 Definition pkg_specs (p : pkg) : list tspec := flat_map top_specs (p_files p).
@@ -405,7 +395,7 @@ Definition test_file (fl : cflags) (f : file) : bool :=
 
 (* the four ListTypes *)
 Definition list_types (c : subcmd) (fl : cflags) (p : pkg) : list string :=
-  flat_map (fun f => if test_file fl f then map ts_name (filter (test_node_list c) (walk_file f)) else [])
+  flat_map (fun f => if test_file fl f then map ts_name (filter (test_node_list c) (top_specs f)) else [])
            (p_files p).
 
 (* ---------------------------------------------------------------- MakeData *)
@@ -420,11 +410,13 @@ Inductive diag :=
 | DgSrcNotExists       (* map: "src type not exists" *)
 | DgDestNotExists      (* map: "dest type not exists" *)
 | DgFileNotGo          (* ParseCommonFlags: "file must be a go file" *)
-| DgFileNotExists.     (* ParseCommonFlags: "file not exists" *)
+| DgFileNotExists      (* ParseCommonFlags: "file not exists" *)
+| DgEnumNone           (* enum: "enum type not exists or has no constants" (explicit -type only) *)
+| DgSameFile.          (* Generate: "more than one type is written to <file>" *)
 
 Inductive md_res := MGen | MSkip | MFatal (d : diag).
 
-(* constructor.parseFields: ast.Inspect over every file with testNode(typeName) *)
+(* constructor.parseFields: InspectTopLevel over every file with testNode(typeName) *)
 Fixpoint new_walk (T : string) (l : list tspec) (found : bool) : md_res :=
   match l with
   | [] => if found then MGen else MFatal DgNotExists
@@ -450,32 +442,34 @@ Fixpoint enum_walk_specs (T : string) (l : list tspec) : bool :=   (* true = fat
   | t :: l' => (ts_alias t && (ts_name t =? T)) || enum_walk_specs T l'
   end.
 
-Fixpoint enum_walk (p : pkg) (T : string) (ds : list decl) (n : nat) : md_res :=
+(* sp = isTypeSpecified: an explicitly named type without any constant is fatal
+   (MakeData, after the walk), a listed one is skipped *)
+Fixpoint enum_walk (p : pkg) (sp : bool) (T : string) (ds : list decl) (n : nat) : md_res :=
   match ds with
-  | [] => if Nat.eqb n 0 then MSkip else MGen
-  | DType l :: ds' => if enum_walk_specs T l then MFatal DgAlias else enum_walk p T ds' n
-  | DFunc l :: ds' => if enum_walk_specs T l then MFatal DgAlias else enum_walk p T ds' n
+  | [] => if Nat.eqb n 0 then (if sp then MFatal DgEnumNone else MSkip) else MGen
+  | DType l :: ds' => if enum_walk_specs T l then MFatal DgAlias else enum_walk p sp T ds' n
+  | DFunc _ :: ds' => enum_walk p sp T ds' n                  (* function bodies are not entered *)
   | DConst ty names :: ds' =>
-      if negb (ty =? T) then enum_walk p T ds' n
+      if negb (ty =? T) then enum_walk p sp T ds' n
       else match names with
-           | [] => enum_walk p T ds' n
-           | _ => if type_is_int p T then enum_walk p T ds' (n + List.length names)
+           | [] => enum_walk p sp T ds' n
+           | _ => if type_is_int p T then enum_walk p sp T ds' (n + List.length names)
                   else MFatal DgNonIntConst
            end
-  | DComment _ :: ds' => enum_walk p T ds' n
+  | DComment _ :: ds' => enum_walk p sp T ds' n
   end.
 
 Definition all_decls (p : pkg) : list decl := flat_map f_decls (p_files p).
 
 Definition make_data (c : subcmd) (p : pkg) (specified : bool) (T : string) : md_res :=
   match c with
-  | CNew => new_walk T (walk_pkg p) false
-  | CEnum => enum_walk p T (all_decls p) 0
+  | CNew => new_walk T (pkg_specs p) false
+  | CEnum => enum_walk p specified T (all_decls p) 0
   | CRest =>                                   (* cookClient: found / "rest client interface not exists" *)
-      if existsb (fun t => (ts_name t =? T) && is_rest_iface t) (walk_pkg p) then MGen
+      if existsb (fun t => (ts_name t =? T) && is_rest_iface t) (pkg_specs p) then MGen
       else MFatal DgRestNotExists
   | CMap =>                                    (* parseSrcFields, parseDestFields (testNode with a name: no exported test) *)
-      if negb (existsb (fun t => (ts_name t =? T) && is_struct t) (walk_pkg p)) then MFatal DgSrcNotExists
+      if negb (existsb (fun t => (ts_name t =? T) && is_struct t) (pkg_specs p)) then MFatal DgSrcNotExists
       else if existsb (fun t => (ts_name t =? T) && is_struct t) (p_dest p) then MGen
       else if specified then MFatal DgDestNotExists else MSkip
   end.
@@ -484,12 +478,6 @@ Definition make_data (c : subcmd) (p : pkg) (specified : bool) (T : string) : md
 
 (* srcMap: file name -> the types whose generated code the file holds (in order) *)
 Definition srcmap := list (string * list string).
-
-Fixpoint upsert (k : string) (v : list string) (m : srcmap) : srcmap :=
-  match m with
-  | [] => [(k, v)]
-  | (k', v') :: m' => if k' =? k then (k, v) :: m' else (k', v') :: upsert k v m'
-  end.
 
 Inductive outcome :=
 | Done (files : srcmap) (listed : list string)    (* exit 0; listed = the file names of the success message
@@ -518,7 +506,10 @@ Fixpoint gen_loop (c : subcmd) (p : pkg) (fl : cflags) (aio : string) (fmap : li
       | MFatal d => (Some d, files, merged)
       | MSkip => gen_loop c p fl aio fmap l' files merged
       | MGen =>
-          if fl_sep fl then gen_loop c p fl aio fmap l' (upsert (file_name c fl aio fmap T) [T] files) merged
+          if fl_sep fl then
+            let n := file_name c fl aio fmap T in
+            if mem n (map fst files) then (Some DgSameFile, files, merged)      (* the name is taken: fatal, nothing written *)
+            else gen_loop c p fl aio fmap l' (files ++ [(n, [T])])%list merged
           else gen_loop c p fl aio fmap l' files (merged ++ [T])
       end
   end.
@@ -541,7 +532,7 @@ Definition run_loaded (o : oracle) (c : subcmd) (fl : cflags) (p : pkg) : outcom
       | (None, files, merged) =>
           let files' := match merged with
                         | [] => files
-                        | _ => upsert (file_name c fl aio fmap "") merged files
+                        | _ => (files ++ [(file_name c fl aio fmap "", merged)])%list
                         end in
           Done files' (o _ (map fst files'))
       end
